@@ -351,6 +351,8 @@ enum Op {
     Recv(u64, String),
     Drop(u64),
     ConnIn(u64),
+    /// the node process is restarted: a new `Service` over the same node database
+    Restart,
 }
 
 struct CaseB {
@@ -400,8 +402,12 @@ fn parse_b(toks: &[&str]) -> Option<CaseB> {
     }
     let mut ops = vec![];
     for t in &toks[2..] {
+        if t.is_empty() {
+            return None;
+        }
         let (k, rest) = t.split_at(1);
         match k {
+            "R" if rest.is_empty() => ops.push(Op::Restart),
             "x" => ops.push(Op::Drop(peer_no(rest)?)),
             "c" => ops.push(Op::ConnIn(peer_no(rest)?)),
             "r" => {
@@ -519,7 +525,10 @@ fn run_b(toks: &[&str]) -> Outcome {
             config.connect.insert(ConnectAddress::from((nid(*p), addr(*p))));
         }
     }
-    let setup = catch(|| {
+    let seeded = case.seeded.clone();
+    let known = case.known.clone();
+    // A node process: a fresh `Service` over the node database in `tmp` (policies are in memory: re-applied).
+    let make_peer = move |config: service::Config, me: Device<MockSigner>, tmp: tempfile::TempDir, first: bool| {
         let mut peer = Peer::config(
             "node",
             [9, 9, 9, 9],
@@ -528,31 +537,37 @@ fn run_b(toks: &[&str]) -> Outcome {
                 config,
                 local_time: LocalTime::from_millis(NOW as u128),
                 policy: SeedingPolicy::default(),
-                signer: me.clone(),
+                signer: me,
                 rng: fastrand::Rng::with_seed(7),
-                tmp: scratch_dir(),
+                tmp,
             },
         );
         peer.initialize();
-        for r in &case.seeded {
+        for r in &seeded {
             peer.seed(&rid(*r), Scope::All).expect("seed");
         }
-        for p in &case.known {
-            peer.service
-                .database_mut()
-                .addresses_mut()
-                .insert(
-                    &nid(*p),
-                    PROTOCOL_VERSION,
-                    Features::SEED,
-                    &Alias::new(format!("peer{p}")),
-                    0,
-                    &UserAgent::default(),
-                    Timestamp::try_from(NOW - 10).expect("timestamp"),
-                    Some(radicle::node::KnownAddress::new(addr(*p), radicle::node::address::Source::Peer)),
-                )
-                .expect("address book");
+        if first {
+            for p in &known {
+                peer.service
+                    .database_mut()
+                    .addresses_mut()
+                    .insert(
+                        &nid(*p),
+                        PROTOCOL_VERSION,
+                        Features::SEED,
+                        &Alias::new(format!("peer{p}")),
+                        0,
+                        &UserAgent::default(),
+                        Timestamp::try_from(NOW - 10).expect("timestamp"),
+                        Some(radicle::node::KnownAddress::new(addr(*p), radicle::node::address::Source::Peer)),
+                    )
+                    .expect("address book");
+            }
         }
+        peer
+    };
+    let setup = catch(|| {
+        let mut peer = make_peer(config.clone(), me.clone(), scratch_dir(), true);
         let mut links = std::collections::BTreeMap::new();
         for (p, st) in &case.sessions {
             let (n, a) = (nid(*p), addr(*p));
@@ -619,10 +634,50 @@ fn run_b(toks: &[&str]) -> Outcome {
             Op::ConnIn(p) => {
                 links.insert(*p, Link::Inbound);
                 match catch(|| peer.connected(nid(*p), addr(*p), Link::Inbound)) {
-                    Ok(()) => out.push('-'),
+                    Ok(()) => {
+                        out.push('-');
+                        peer.outbox().for_each(drop);
+                    }
                     Err(msg) => {
                         out.push('P');
-                        o = o.violation("service-panic", format!("Service::connected panicked: {msg}"));
+                        let class = if msg.contains("subtract with overflow") || msg.contains("TryFromIntError") {
+                            "subscribe-backlog-underflow"
+                        } else {
+                            "service-panic"
+                        };
+                        o = o.tag("b:connect-panic").violation(class, format!("Service::connected (building the initial Subscribe) panicked: {msg}"));
+                        break;
+                    }
+                }
+            }
+            Op::Restart => {
+                let res = catch(|| {
+                    let Peer { service, tempdir, .. } = std::mem::replace(&mut peer, make_peer(config.clone(), me.clone(), scratch_dir(), false));
+                    drop(service); // closes the database
+                    let fresh = scratch_dir();
+                    for suffix in ["", "-wal", "-shm"] {
+                        let from = tempdir.path().join(format!("{}{suffix}", radicle::node::NODE_DB_FILE));
+                        if from.exists() {
+                            std::fs::copy(&from, fresh.path().join(format!("{}{suffix}", radicle::node::NODE_DB_FILE))).expect("copy db");
+                        }
+                    }
+                    peer = make_peer(config.clone(), me.clone(), fresh, false);
+                    peer.outbox().for_each(drop);
+                });
+                links.clear();
+                for p in [4u64, 5] {
+                    if case.sessions.iter().any(|(q, _)| *q == p) {
+                        links.insert(p, Link::Outbound);
+                    }
+                }
+                match res {
+                    Ok(()) => {
+                        out.push('-');
+                        o = o.tag("b:restart");
+                    }
+                    Err(msg) => {
+                        out.push('P');
+                        o = o.violation("service-panic", format!("restarting the node panicked: {msg}"));
                         break;
                     }
                 }
@@ -715,6 +770,7 @@ fn gen_b(rng: &mut Rng) -> String {
             4 => NOW + 3_600_001, // one millisecond too far
             5 => TS_MAX,
             6 => NOW,
+            7 if rng.chance(1, 3) => *rng.pick(&[2u64, 179_999, 180_000]), // around SUBSCRIBE_BACKLOG_DELTA after the epoch
             _ => NOW + rng.below(1000),
         }
     };
@@ -729,6 +785,7 @@ fn gen_b(rng: &mut Rng) -> String {
         };
         let sig = if rng.chance(1, 8) { 0 } else { 1 };
         let op = match rng.below(20) {
+            0 if rng.chance(1, 3) => "R".to_string(),
             0 => format!("x{p}"),
             1 => format!("c{p}"),
             // (a SEED node announcement that passes every guard costs one scrypt evaluation: keep them rare)
@@ -815,6 +872,295 @@ fn directed_b(rng: &mut Rng) -> String {
     format!("b {p}{st},{q}c 1,2,3/{p},{q} {}", ops.join(" "))
 }
 
+/// Restart histories: announcements with tiny / boundary timestamps are stored, the node restarts, a peer connects.
+fn directed_restart(rng: &mut Rng) -> String {
+    let t = *rng.pick(&[1u64, 2, 179_999, 180_000, 180_001, NOW]);
+    let kind = match rng.below(3) {
+        0 => format!("n,0,1,{t},{}", rng.below(2)),
+        1 => format!("i,0,1,{t},1;2"),
+        _ => format!("f,0,1,{t},1,0@1"),
+    };
+    let known = if rng.chance(3, 4) { "0" } else { "-" };
+    let mut ops = vec![format!("r0:{kind}")];
+    if rng.bool() {
+        // a newer announcement hides the tiny one
+        ops.push(format!("r0:n,1,1,{},0", *rng.pick(&[3u64, 180_000, NOW])));
+    }
+    ops.push("R".into());
+    ops.push(format!("c{}", rng.below(3)));
+    ops.push("r0:p,1".into());
+    format!("b 0c 1,2/{known} {}", ops.join(" "))
+}
+
+fn gen_d(rng: &mut Rng) -> String {
+    let outbound = rng.bool();
+    let ours = |n: u64| 4 + (!outbound as u64) + 8 * n;
+    let theirs = |n: u64| 4 + (outbound as u64) + 8 * n;
+    let mut seq = 0u64;
+    let mut fetches = 0;
+    let n = rng.range(1, 12);
+    let mut ops = vec![];
+    for _ in 0..n {
+        let id = match rng.below(10) {
+            0..=2 => ours(seq + rng.range(1, 3)),      // an id our side will allocate soon
+            3 => ours(rng.below(seq + 1)),             // one we already allocated (or nth(0))
+            4..=6 => theirs(rng.range(0, 3)),          // a legitimate id of the peer
+            7 => rng.below(8),                         // control / gossip / kind-3 ids
+            8 => (1u64 << 62) - 1 - rng.below(16),     // the largest ids
+            _ => rng.below(64),
+        };
+        let op = match rng.below(12) {
+            0..=3 => format!("O{id}"),
+            4 => format!("C{id}"),
+            5 => format!("E{id}"),
+            6 => format!("G{id}"),
+            7..=9 if fetches < 10 => {
+                fetches += 1;
+                seq += 1;
+                "F".to_string()
+            }
+            _ => format!("W{id}"),
+        };
+        ops.push(op);
+    }
+    format!("d {} {}", if outbound { "o" } else { "i" }, ops.join(" "))
+}
+
+// ---------------------------------------------------------------------------------------------------
+// (d) control frames → stream bookkeeping of the wire protocol
+
+/// The REAL `Wire` state machine (`wire/protocol.rs`) driven in-process: the reactor is replaced by direct
+/// calls of its `reactor::Handler` methods; the Noise handshake is skipped by handing `Wire` the
+/// `SessionEvent::Established` artifact a completed handshake with the peer would produce.
+///
+/// Case: `d <o|i> <op>…` — our link to the peer (`o`: we dialed, `i`: the peer dialed). Ops:
+/// `O<id>` / `C<id>` / `E<id>`: the peer sends control `Open` / `Close` / `Eof` for stream id `<id>` (any u62);
+/// `G<id>`: a git data frame on stream `<id>`; `F`: our service starts a fetch from the peer (next repository);
+/// `W<id>`: a worker reports its result for stream `<id>`.
+/// Output per op: `<op>:` followed by what the wire did: `T<id>` a worker task was spawned for stream `<id>`
+/// (`Tr` responder, `Ti` initiator), `S<o|c|e><id>` a control frame was sent to the peer, `P` panic.
+mod wire_d {
+    use super::*;
+    use std::net::{TcpListener, TcpStream};
+    use std::os::fd::AsRawFd as _;
+
+    use crossbeam_channel as chan;
+    use cyphernet::addr::{HostName, NetAddr};
+    use netservices::resource::{ListenerEvent, SessionEvent};
+    use netservices::session::ProtocolArtifact;
+    use netservices::NetStateMachine;
+
+    /// `NoiseArtifact` (not nameable directly: it lives in a private module of `netservices`).
+    type NoiseArt = <cyphernet::encrypt::noise::NoiseState<MockSigner, cyphernet::Sha256> as NetStateMachine>::Artifact;
+    use radicle_node::wire::{Control as WireControl, Wire};
+    use radicle_node::worker::{FetchRequest, FetchResult, Task, TaskResult};
+    use reactor::{Action, Handler as _, ResourceIdGenerator, ResourceType};
+
+    type W = Wire<radicle::node::Database, MockStorage, MockSigner>;
+
+    pub fn sid(n: u64) -> Option<StreamId> {
+        if n >= 1 << 62 {
+            return None;
+        }
+        wire::deserialize::<StreamId>(&varint_bytes(n, min_width(n))).ok()
+    }
+
+    struct Drained {
+        events: Vec<String>,
+        register: Option<std::os::fd::RawFd>,
+    }
+
+    /// Run the wire's action queue dry; report control frames sent; keep transports alive.
+    fn drain(w: &mut W, keep: &mut Vec<Box<dyn std::any::Any>>) -> Drained {
+        let mut d = Drained { events: vec![], register: None };
+        while let Some(a) = w.next() {
+            match a {
+                Action::RegisterTransport(t) => {
+                    d.register = Some(t.as_raw_fd());
+                    keep.push(Box::new(t));
+                }
+                Action::Send(_, bytes) => {
+                    let mut de = Deserializer::<BIG_B, Frame<Message>>::new(1024);
+                    if de.input(&bytes).is_ok() {
+                        while let Ok(Some(f)) = de.deserialize_next() {
+                            if let FrameData::Control(c) = f.data {
+                                d.events.push(match c {
+                                    Control::Open { stream } => format!("So{}", u64::from(stream)),
+                                    Control::Close { stream } => format!("Sc{}", u64::from(stream)),
+                                    Control::Eof { stream } => format!("Se{}", u64::from(stream)),
+                                });
+                            }
+                        }
+                    }
+                }
+                _ => {}
+            }
+        }
+        d
+    }
+
+    fn tasks(rx: &chan::Receiver<Task>, keep: &mut Vec<Box<dyn std::any::Any>>) -> Vec<String> {
+        let mut v = vec![];
+        while let Ok(t) = rx.try_recv() {
+            v.push(match &t.fetch {
+                FetchRequest::Initiator { .. } => format!("Ti{}", u64::from(t.stream)),
+                FetchRequest::Responder { .. } => format!("Tr{}", u64::from(t.stream)),
+            });
+            keep.push(Box::new(t)); // keep the channels open, as a busy worker would
+        }
+        v
+    }
+
+    pub fn run_d(toks: &[&str]) -> Outcome {
+        let bad = || Outcome::new("bad-case").trivial();
+        if toks.is_empty() || !["o", "i"].contains(&toks[0]) {
+            return bad();
+        }
+        let outbound = toks[0] == "o";
+        // parse ops
+        let mut ops: Vec<(char, Option<u64>)> = vec![];
+        for t in &toks[1..] {
+            let mut cs = t.chars();
+            let Some(k) = cs.next() else { return bad() };
+            let rest: String = cs.collect();
+            match k {
+                'F' if rest.is_empty() => ops.push(('F', None)),
+                'O' | 'C' | 'E' | 'G' | 'W' => {
+                    let Ok(n) = rest.parse::<u64>() else { return bad() };
+                    if sid(n).is_none() || rest != n.to_string() {
+                        return bad();
+                    }
+                    ops.push((k, Some(n)));
+                }
+                _ => return bad(),
+            }
+        }
+        let me = Device::mock_from_seed([0xA1u8; 32]);
+        let remote = nid(0);
+        let mut keep: Vec<Box<dyn std::any::Any>> = vec![];
+        let setup = catch(|| {
+            let mut config = service::Config::test(Alias::new("node"));
+            config.peers = radicle::node::config::PeerConfig::Static;
+            // enough concurrent fetches per peer for the histories we run
+            config.limits.fetch_concurrency = 16;
+            let mut peer = Peer::config(
+                "node",
+                [9, 9, 9, 9],
+                MockStorage::empty(),
+                Config {
+                    config,
+                    local_time: LocalTime::from_millis(NOW as u128),
+                    policy: SeedingPolicy::default(),
+                    signer: me.clone(),
+                    rng: fastrand::Rng::with_seed(7),
+                    tmp: scratch_dir(),
+                },
+            );
+            peer.initialize();
+            let Peer { service, tempdir, .. } = peer;
+            let (tx, rx) = chan::unbounded::<Task>();
+            let mut w: W = Wire::new(service, tx, me.clone());
+            let listener = TcpListener::bind("127.0.0.1:0").expect("bind");
+            let laddr = listener.local_addr().expect("addr");
+            let mut ids = ResourceIdGenerator::default();
+            let ts = reactor::Timestamp::from_millis(NOW as u128);
+            let mut sockets: Vec<Box<dyn std::any::Any>> = vec![Box::new(tempdir)];
+            let (fd, peer_addr): (std::os::fd::RawFd, std::net::SocketAddr) = if outbound {
+                w.handle_command(WireControl::User(Command::Connect(remote, Address::from(laddr), ConnectOptions::default())));
+                let d = drain(&mut w, &mut sockets);
+                (d.register.expect("outbound transport"), laddr)
+            } else {
+                let client = TcpStream::connect(laddr).expect("connect");
+                let (server, from) = listener.accept().expect("accept");
+                sockets.push(Box::new(client));
+                w.handle_listener_event(ids.next(), ListenerEvent::Accepted(server), ts);
+                let d = drain(&mut w, &mut sockets);
+                (d.register.expect("inbound transport"), from)
+            };
+            let id = ids.next();
+            w.handle_registered(fd, id, ResourceType::Transport);
+            let host: NetAddr<HostName> = NetAddr::new(HostName::Ip(peer_addr.ip()), peer_addr.port());
+            let artifact = ProtocolArtifact {
+                session: ProtocolArtifact { session: peer_addr, state: host },
+                state: NoiseArt { handshake_hash: Default::default(), remote_static_key: Some(remote) },
+            };
+            w.handle_transport_event(id, SessionEvent::Established(fd, artifact), ts);
+            drain(&mut w, &mut sockets);
+            sockets.push(Box::new(listener));
+            (w, rx, id, sockets)
+        });
+        let (mut w, rx, id, sockets) = match setup {
+            Ok(x) => x,
+            Err(msg) => return Outcome::new("setup-panic").violation("harness-setup", format!("setting up the wire panicked: {msg}")),
+        };
+        keep.extend(sockets);
+        let our_link = if outbound { Link::Outbound } else { Link::Inbound };
+        let their_link = if outbound { Link::Inbound } else { Link::Outbound };
+        let ts = reactor::Timestamp::from_millis(NOW as u128);
+        let mut out: Vec<String> = vec![];
+        let mut o = Outcome::new("");
+        let mut next_rid = 1u64;
+        for (k, n) in ops {
+            let label = match n {
+                Some(n) => format!("{k}{n}"),
+                None => k.to_string(),
+            };
+            let res = catch(|| {
+                match k {
+                    'O' | 'C' | 'E' => {
+                        let stream = sid(n.unwrap()).unwrap();
+                        let c = match k {
+                            'O' => Control::Open { stream },
+                            'C' => Control::Close { stream },
+                            _ => Control::Eof { stream },
+                        };
+                        let bytes = Frame::<Message>::control(their_link, c).to_bytes();
+                        w.handle_transport_event(id, SessionEvent::Data(bytes), ts);
+                    }
+                    'G' => {
+                        let bytes = Frame::<Message>::git(sid(n.unwrap()).unwrap(), vec![1, 2, 3]).to_bytes();
+                        w.handle_transport_event(id, SessionEvent::Data(bytes), ts);
+                    }
+                    'F' => {
+                        let (tx, _rx) = chan::bounded(1);
+                        let r = rid(1000 + next_rid);
+                        next_rid += 1;
+                        w.handle_command(WireControl::User(Command::Fetch(r, remote, std::time::Duration::from_secs(9), tx)));
+                    }
+                    _ => {
+                        let stream = sid(n.unwrap()).unwrap();
+                        w.handle_command(WireControl::Worker(TaskResult {
+                            remote,
+                            stream,
+                            result: FetchResult::Responder { rid: None, result: Ok(()) },
+                        }));
+                    }
+                }
+                let d = drain(&mut w, &mut keep);
+                d.events
+            });
+            match res {
+                Ok(mut ev) => {
+                    let mut all = tasks(&rx, &mut keep);
+                    all.append(&mut ev);
+                    out.push(format!("{label}:{}", if all.is_empty() { "-".to_string() } else { all.join(",") }));
+                    o = o.tag(format!("d:{k}"));
+                }
+                Err(msg) => {
+                    out.push(format!("{label}:P"));
+                    let class = if msg.contains("stream was already open") { "stream-preopened-by-peer" } else { "wire-panic" };
+                    o = o.tag("d:panic").violation(class, format!("`{label}` on an {our_link:?} connection panicked: {msg}"));
+                    break;
+                }
+            }
+        }
+        o.output = out.join(" ");
+        o.tags.sort();
+        o.tags.dedup();
+        o
+    }
+}
+
 // ---------------------------------------------------------------------------------------------------
 
 fn run_case(input: &str) -> Outcome {
@@ -823,6 +1169,7 @@ fn run_case(input: &str) -> Outcome {
         Some("a") => run_a(&toks[1..]),
         Some("b") => run_b(&toks[1..]),
         Some("c") => header::run_header(&toks[1..]),
+        Some("d") => wire_d::run_d(&toks[1..]),
         _ => Outcome::new("bad-case").trivial(),
     }
 }
@@ -880,7 +1227,19 @@ fn main() {
         }
         // (b)
         for i in 0..ctx.size(450, 4_000) {
-            let input = if i % 7 == 0 { directed_b(&mut rng) } else { gen_b(&mut rng) };
+            let input = if i % 7 == 0 {
+                directed_b(&mut rng)
+            } else if i % 7 == 3 && i % 2 == 1 {
+                directed_restart(&mut rng)
+            } else {
+                gen_b(&mut rng)
+            };
+            let o = run_case(&input);
+            ctx.record(&input, o);
+        }
+        // (d)
+        for _ in 0..ctx.size(400, 6_000) {
+            let input = gen_d(&mut rng);
             let o = run_case(&input);
             ctx.record(&input, o);
         }
@@ -891,7 +1250,7 @@ fn main() {
          (b) service histories: up to 6 peers in every session state (none/initial/attempted/connected in+out/disconnected), up to 14 ops \
          (announcements with timestamps 0,1,now-delta-1,now+delta,now+delta+1,i64::MAX, bad signatures, own id, unknown announcers, empty and \
          maximal inventories/refs, subscribe with since>until, pings at the pong-size boundary, pongs, info, disconnect/reconnect events) plus \
-         directed histories reaching fetch / already-fetching / at-capacity / queue; (c) all 65536 hex length prefixes and structured request headers; \
+         directed histories reaching fetch / already-fetching / at-capacity / queue, restarts of the node after announcements with tiny timestamps; (d) real Wire, one connected peer (inbound/outbound): 1-12 control/git frames with stream ids of either initiator, every kind, boundary ids, interleaved with own fetches and worker results; (c) all 65536 hex length prefixes and structured request headers; \
          non-trivial = well-formed case text; distinct by input text",
         false,
     );
